@@ -342,6 +342,10 @@ def run(prop, seed, budget, ctx):
             cf_, cn_, cd_, ch_ = rec_cons.run_part(seed, budget)
             failures += cf_; evaluations += cn_; distinct |= cd_
             for k_, v_ in ch_.items(): hist[k_] += v_
+            import corners8
+            cf_, cn_, cd_, ch_ = corners8.run_part("C06", seed, budget)
+            failures += cf_; evaluations += cn_; distinct |= cd_
+            for k_, v_ in ch_.items(): hist[k_] += v_
         import generics
         gf, gn, gd, gh = generics.run_part(prop, seed, budget)
         failures += gf; evaluations += gn; distinct |= gd
